@@ -582,9 +582,19 @@ class WangLandauMachine:
         startTime = t.time()
         reject = 0
 
+        # [verification hook, only active with LOCALCIDER_VERIF=1] one record per trip through the loop
+        _verif = os.environ.get("LOCALCIDER_VERIF") == "1"
+        if _verif:
+            self._verif_trace = []
+            self._verif_start = (oseq.seq, float(kold), int(idx_old))
+            _verif_cap = int(os.environ.get("LOCALCIDER_VERIF_WL_MAXSTEPS", "0"))
+
         # This main while loop runs until we reach convergence. Note that depending on how long your sequence is
         # this might run for a while...
         while(f > self.convergence):
+
+            if _verif and _verif_cap and len(self._verif_trace) >= _verif_cap:
+                break
 
             if nstep % self.dotdotfreq == 0:
                 running_dotdotdot()
@@ -647,6 +657,12 @@ class WangLandauMachine:
             # if new sequence kappa is less visited than old sequence kappa,
             # visit it
 
+            if _verif:
+                _rec = {"r_move": float(r), "nseq": nseq.seq, "knew": float(knew), "idx_new": int(idx_new),
+                        "idx_old": int(idx_old), "g_old": float(g[idx_old]), "g_new": float(g[idx_new]),
+                        "acceptProb": float(acceptProb), "skip": bool(skip), "f": float(f), "nstep": int(nstep),
+                        "niter": int(niter), "accepted": False}
+
             # =============================================================================
             # ACCEPTANCE REGION
             # if we accept the move
@@ -675,6 +691,8 @@ class WangLandauMachine:
                 # reset the new sequence and new sequence histogram index
                 nseq = None
                 idx_new = 0
+                if _verif:
+                    _rec["accepted"] = True
 
             # if we do not accept the move
             else:
@@ -688,6 +706,11 @@ class WangLandauMachine:
             if not skip:
                 g[idx_old] = g[idx_old] + np.log(f)
                 H[idx_old] = H[idx_old] + 1
+
+            if _verif:
+                _rec.update({"cur_seq": oseq.seq, "cur_idx": int(idx_old), "g_after": [float(x) for x in g],
+                             "H_after": [int(x) for x in H]})
+                self._verif_trace.append(_rec)
 
             # increment the number of steps taken
             nstep = nstep + 1
@@ -715,6 +738,9 @@ class WangLandauMachine:
 
                 (H, f, niter, nstep) = self.__run_flatcheck(
                     H, Hlocal, niter, f, hlog, glog, g)
+                if _verif:
+                    self._verif_trace[-1].update({"flatcheck": True, "H_reset": [int(x) for x in H], "f_after": float(f),
+                                                  "niter_after": int(niter)})
                 # to timing stats for this set of cycles
                 endTime = t.time()
                 print(("Time for this flat-check cycle: " +
